@@ -472,6 +472,23 @@ class MonC09(Monitor):
                 bases.append(("after config_slm_mask on the empty sequence: ", fresh))
             except Exception:  # noqa: BLE001
                 pass
+        # ... and with a global channel declared on top: the first pulse on it also schedules the mask's
+        # detuning on the DMM, whose own limits may refuse it
+        gl = [i for i, c in enumerate(dev.spec["channels"]) if not c.get("local") and c["kind"] != "microwave"]
+        if len(bases) == 2 and gl:
+            try:
+                with warnings.catch_warnings():
+                    warnings.simplefilter("ignore")
+                    fresh2 = copy.deepcopy(bases[1][1])
+                    fresh2.declare_channel("zz_probe_ch", dev.chan_ids[gl[0]])
+                bases.append(("after config_slm_mask and a global channel: ", fresh2))
+            except Exception:  # noqa: BLE001
+                pass
+        first_pulse = [
+            (f"add(first pulse of {d} ns, mask pending)",
+             lambda s, d=d: s.add(Pulse.ConstantPulse(d, 1.0, 0.0, 0.0), "zz_probe_ch"))
+            for d in (1, 4, 10, 16, 18, 21, 52, 400, 1200, 5000)
+        ]
         pending = [
             ("config_detuning_map(the mask's dmm)",
              lambda s: s.config_detuning_map(s.register.define_detuning_map({q0: 1.0}), "dmm_0")),
@@ -482,7 +499,8 @@ class MonC09(Monitor):
         with warnings.catch_warnings():
             warnings.simplefilter("ignore")
             for prefix, base_i, name, fn in [(pf, b, n, f) for pf, b in bases
-                                             for n, f in probes + (pending if pf else [])]:
+                                             for n, f in (first_pulse if "global channel" in pf
+                                                          else probes + (pending if pf else []))]:
                 name = prefix + name
                 try:
                     seq = copy.deepcopy(base_i)
